@@ -204,8 +204,10 @@ pub trait WideNum: Num {
     fn from_raw(x: u64) -> Self;
     fn top() -> u128;
     fn halve(sk: &mut CountMinSketch<Self>) -> bool;
+    fn decay(sk: &mut CountMinSketch<Self>, d: f64) -> bool;
 }
 impl WideNum for u64 {
+    fn decay(sk: &mut CountMinSketch<Self>, d: f64) -> bool { sk.decay(d); true }
     fn raw(self) -> u64 { self }
     fn from_raw(x: u64) -> Self { x }
     fn top() -> u128 { u64::MAX as u128 }
@@ -216,6 +218,7 @@ impl WideNum for i64 {
     fn from_raw(x: u64) -> Self { x as i64 }
     fn top() -> u128 { i64::MAX as u128 }
     fn halve(_sk: &mut CountMinSketch<Self>) -> bool { false }
+    fn decay(_sk: &mut CountMinSketch<Self>, _d: f64) -> bool { false }
 }
 
 fn wide_chk<T: WideNum>(out: &mut Shards, id: usize, sk: &CountMinSketch<T>, seeds: &[u64], items: &[u64], w: u32) {
@@ -255,6 +258,8 @@ fn wide_scenario_inner<T: WideNum>(out: &mut Shards, rng: &mut Rng, tname: &str,
     out.ev(json!({"op":"WNew","id":1,"d":d,"w":w}));
     let items: Vec<u64> = (0..6).map(|_| rng.below(1 << 20)).collect();
     let mut used = [0u128; 2];
+    // exact weight of every item in each sketch (scaled as the sketch is scaled)
+    let mut truth: [std::collections::BTreeMap<u64, u64>; 2] = [Default::default(), Default::default()];
     for i in 0..n_ops {
         let which = if rng.chance(1, 4) { 1 } else { 0 };
         let r = rng.below(100);
@@ -275,6 +280,7 @@ fn wide_scenario_inner<T: WideNum>(out: &mut Shards, rng: &mut Rng, tname: &str,
                 continue;
             }
             used[which] += wt as u128;
+            *truth[which].entry(it).or_insert(0) += wt;
             let res = catch(std::panic::AssertUnwindSafe(|| sks[which].update_with_weight(it, T::from_raw(wt))));
             if let Err(e) = res {
                 out.ev(json!({"op":"Panic","in":"update_with_weight","key":e.split(": ").next().unwrap_or(""),"msg":e}));
@@ -293,17 +299,88 @@ fn wide_scenario_inner<T: WideNum>(out: &mut Shards, rng: &mut Rng, tname: &str,
                 return;
             }
             used[0] += used[1];
+            let t1 = truth[1].clone();
+            for (k, v) in t1 {
+                *truth[0].entry(k).or_insert(0) += v;
+            }
             out.ev(json!({"op":"WMerge","id":0,"src":1,"tot":limbs(sks[0].total_weight().raw())}));
         } else if r < 94 {
             if T::halve(&mut sks[which]) {
                 used[which] = sks[which].total_weight().raw() as u128;
+                truth[which].values_mut().for_each(|v| *v /= 2);
                 out.ev(json!({"op":"WHalve","id":which,"tot":limbs(sks[which].total_weight().raw())}));
+            }
+        } else if r < 99 {
+            // decay: every counter, the total (and every exact weight) goes through the documented map
+            // v -> trunc(v as f64 * d); the values it is applied to and their images are logged
+            let d = *rng.pick(&[0.9f64, 0.5, 1.0, 0.999, 0.25]);
+            let f = |v: u64| ((v as f64) * d).trunc() as u64;
+            let before = sks[which].serialize();
+            let mut dom: std::collections::BTreeSet<u64> = truth[which].values().copied().collect();
+            dom.insert(sks[which].total_weight().raw());
+            if before.len() > 24 {
+                for i in 0..(before.len() - 24) / 8 {
+                    dom.insert(u64::from_le_bytes(before[24 + 8 * i..32 + 8 * i].try_into().unwrap()));
+                }
+            }
+            if T::decay(&mut sks[which], d) {
+                used[which] = sks[which].total_weight().raw() as u128;
+                truth[which].values_mut().for_each(|v| *v = f(*v));
+                out.ev(json!({"op":"WDecay","id":which,"d":format!("{d}"),"tot":limbs(sks[which].total_weight().raw()),
+                    "f":dom.iter().map(|&v| json!([limbs(v), limbs(f(v))])).collect::<Vec<_>>()}));
             }
         }
         if (i + 1) % 10 == 0 || i + 1 == n_ops {
             wide_chk(out, 0, &sks[0], &seeds, &items, w);
             wide_chk(out, 1, &sks[1], &seeds, &items, w);
         }
+    }
+}
+
+/// one item driven to exactly the largest value the counter type holds (still "within range")
+fn saturate<T: Num>(out: &mut Shards, tname: &str, max: u64) {
+    let r = catch(std::panic::AssertUnwindSafe(|| {
+        out.next_run(&format!("cm-saturate-{tname}"));
+        let (d, w, seed) = (3u8, 5u32, 9001u64);
+        let seeds = row_seeds(seed, d);
+        let c = Cm::<T> { sk: CountMinSketch::<T>::with_seed(d, w, seed), seeds: seeds.clone() };
+        let mut c = c;
+        out.ev(json!({"op":"CNew","id":0,"d":d,"w":w}));
+        let it = 77u64;
+        let step = |c: &mut Cm<T>, out: &mut Shards, wt: u64| {
+            c.sk.update_with_weight(it, T::of(wt));
+            out.ev(json!({"op":"CUpd","id":0,"x":it,"b":buckets(it, &seeds, w),"wt":wt,"est":c.sk.estimate(it).val(),"tot":c.sk.total_weight().val()}));
+        };
+        step(&mut c, out, max - 55);
+        for _ in 0..55 {
+            step(&mut c, out, 1);
+        }
+        chk(out, 0, &c, &[it, 78], d, w);
+    }));
+    if let Err(e) = r {
+        out.ev(json!({"op":"Panic","in":"scenario","key":e.split(": ").next().unwrap_or(""),"msg":e}));
+    }
+}
+
+/// the same for the 64-bit types, on limbs
+fn saturate_wide<T: WideNum>(out: &mut Shards, tname: &str) {
+    let r = catch(std::panic::AssertUnwindSafe(|| {
+        out.next_run(&format!("cm-wide-saturate-{tname}"));
+        let (d, w, seed) = (2u8, 5u32, 9001u64);
+        let seeds = row_seeds(seed, d);
+        let mut sk = CountMinSketch::<T>::with_seed(d, w, seed);
+        out.ev(json!({"op":"WNew","id":0,"d":d,"w":w}));
+        let it = 77u64;
+        let top = T::top() as u64;
+        for wt in [top - 3, 1, 1, 1] {
+            sk.update_with_weight(it, T::from_raw(wt));
+            out.ev(json!({"op":"WUpd","id":0,"x":it,"b":buckets(it, &seeds, w),"wt":limbs(wt),
+                "est":limbs(sk.estimate(it).raw()),"tot":limbs(sk.total_weight().raw())}));
+        }
+        wide_chk(out, 0, &sk, &seeds, &[it, 78], w);
+    }));
+    if let Err(e) = r {
+        out.ev(json!({"op":"Panic","in":"scenario","key":e.split(": ").next().unwrap_or(""),"msg":e}));
     }
 }
 
@@ -378,6 +455,12 @@ pub fn record(args: &Args) {
             }
         }
     }
+    saturate::<u8>(&mut out, "u8", u8::MAX as u64);
+    saturate::<i8>(&mut out, "i8", i8::MAX as u64);
+    saturate::<u16>(&mut out, "u16", u16::MAX as u64);
+    saturate::<i16>(&mut out, "i16", i16::MAX as u64);
+    saturate_wide::<u64>(&mut out, "u64");
+    saturate_wide::<i64>(&mut out, "i64");
     merge_refusals(&mut out);
     let (runs, events) = out.finish();
     println!("{}", json!({"runs":runs,"events":events}));
